@@ -299,6 +299,51 @@ def run(ctx):
                    'the WhiteSpace arm copies WhiteSpace::%s nodes: inside a directive blanks are always WhiteSpace::Space, so such a node only occurs outside directives, as the '
                    'trailing trivia of a token whose own arm has already copied it (string literal, escaped identifier): the blanks — e.g. the line break after a string — appear '
                    'twice in the output and every later origin is shifted' % v)
+    # ---- (a3) plain text is only ever copied.  The arms that see directive-free text (comments, blanks, strings, escaped identifiers, other
+    # text) may emit something that is not a slice of the source only where a comment is being stripped: a literal pushed on any other path
+    # makes the output differ from the input on text without directives
+    for (ev, key), f in sorted(feats.items()):
+        a = f['arm']
+        if ev != 'Enter' or not (a.kind in ('Comment', 'WhiteSpace') or (a.sub and a.sub.startswith('SourceDescription::') and a.sub.split('::')[-1] != 'CompilerDirective')):
+            continue
+
+        def lit_text(e_, scope):
+            e_ = sx.strip_ref(e_)
+            if sx.lit_str(e_) is not None:
+                return True
+            if sx.is_path(e_):
+                for st_ in scope:
+                    if st_.get('k') == 'let' and st_['pat'].get('k') == 'ident' and st_['pat']['n'] == e_['p'] and 'init' in st_:
+                        lits_ = [z for z in sx.walk(st_['init']) if z.get('k') == 'lit' and z.get('t') == 'str']
+                        leafs_ = [z for z in sx.walk(st_['init']) if z.get('k') == 'mcall' and z['m'] == 'str']
+                        return bool(lits_) and not leafs_ or (bool(lits_) and st_['init'].get('k') in ('if', 'match'))
+            return False
+
+        def scan3(node, strip_true, scope):
+            if isinstance(node, dict):
+                if node.get('k') == 'block':
+                    scope = scope + [x_ for x_ in node['stmts']]
+                if node.get('k') == 'mcall' and node['m'] == 'push' and sx.is_path(node['recv'], pp.out_var) and node['args']:
+                    if lit_text(node['args'][0], scope) and not strip_true:
+                        r.fail('%s:%s:synthetic-text-in-plain-arm' % (CRATE, a.key), pp.where(node.get('l') or a.line),
+                               '%s pushes text that is not copied from the source (`%s`) on a path that is taken without strip_comments: text without directives no longer passes '
+                               'through unchanged (an extra byte appears, and every later offset is shifted or has no origin)' % (a.key, sq(node['args'][0])[:30]))
+                if node.get('k') == 'if' and node['c'].get('k') != 'let':
+                    c_ = sq(node['c'])
+                    scan3(node['c'], strip_true, scope)
+                    scan3(node['t'], strip_true or c_ == 'strip_comments', scope)
+                    if 'e' in node:
+                        scan3(node['e'], strip_true or c_ in ('!strip_comments', '(!strip_comments)'), scope)
+                    return
+                for v_ in node.values():
+                    if isinstance(v_, (dict, list)):
+                        scan3(v_, strip_true, scope)
+            elif isinstance(node, list):
+                for x_ in node:
+                    scan3(x_, strip_true, scope)
+        g_ = f['guard'] or ''
+        r.inst('a3:%s' % a.key)
+        scan3(a.body, g_ == 'strip_comments', [])
     # partial emitters inside a self-skipped node (TextMacroUsage trailing blanks) are emitted by the arm itself: once
     # ---- (b) at least once: every SourceDescription / CompilerDirective kind has a handler
     handled = set()
@@ -366,6 +411,42 @@ def run(ctx):
             r.fail('%s:strip-changes-arm:%s' % (CRATE, a_.key), pp.where(reads[0].get('l') or a_.line),
                    'the handler of %s behaves differently under strip_comments (`%s`): the flag may only remove comments (the Comment arm) and be handed to '
                    'nested runs; any other dependence changes non-comment text between the two modes' % (a_.key, sq(reads[0]['c'] if reads[0].get('k') == 'if' else reads[0]['e'])[:50]))
+    # ... and in the other functions of the preprocessor (the macro resolver, the file entry, helpers) the flag is only handed on: a
+    # condition that tests it there makes something else than the removal of comments depend on the mode
+    def _direct_read_any(e_):
+        if not isinstance(e_, dict):
+            return False
+        if sx.is_path(e_, 'strip_comments'):
+            return True
+        k_ = e_.get('k')
+        if k_ == 'call':
+            return False
+        if k_ == 'mcall':
+            return _direct_read_any(e_.get('recv'))
+        if k_ == 'closure':
+            return False
+        return any(_direct_read_any(v_) if isinstance(v_, dict) else any(_direct_read_any(x_) for x_ in v_ if isinstance(x_, dict)) if isinstance(v_, list) else False
+                   for v_ in e_.values())
+    for fname_, f_ in sorted(pp.fns.items()):
+        if f_ is pp.loop_fn or not f_.get('body'):
+            continue
+        pn_ = [sx.pat_idents(q['pat'])[0] for q in f_['sig']['params'] if q.get('k') == 'typed']
+        if 'strip_comments' not in pn_:
+            continue
+        r.inst('c:strip-read-fn:%s' % fname_)
+        for n in sx.walk(f_['body']):
+            cond = None
+            if n.get('k') == 'if':
+                cond = n['c'].get('e') if n['c'].get('k') == 'let' else n['c']
+            elif n.get('k') == 'match':
+                cond = n['e']
+            elif n.get('k') == 'let' and 'init' in n and n['init'].get('k') in ('binary', 'unary', 'path'):
+                cond = n['init']
+            if cond is not None and _direct_read_any(cond):
+                r.fail('%s:strip-read-outside-comment-arm:%s' % (CRATE, fname_), pp.where(n.get('l') or f_['l']),
+                       '%s tests strip_comments (`%s`): outside the Comment handler the flag may only be handed to nested runs; here something else than the removal of comments '
+                       'depends on the mode, so the two modes can differ in their non-comment tokens' % (fname_, sq(cond)[:50]))
+                break
     # what happens to a comment under strip: nothing emitted in its place?
     cm = [f for (ev, key), f in feats.items() if ev == 'Enter' and f['arm'].kind == 'Comment']
     r.exactly('comment_arm', len(cm), 1)
